@@ -337,11 +337,15 @@ func NewWAF() *WAF {
 		auditLogWriter:            logWriter,
 		auditLogWriterInitialized: false,
 		AuditLogWriterConfig:      auditlog.NewConfig(),
+		// the mandatory header and end marker frame the default parts, as they frame every list the
+		// SecAuditLogParts directive accepts (ABCFHZ is also the default of ModSecurity)
 		AuditLogParts: types.AuditLogParts{
+			types.AuditLogPartHeader,
 			types.AuditLogPartRequestHeaders,
 			types.AuditLogPartRequestBody,
 			types.AuditLogPartResponseHeaders,
 			types.AuditLogPartAuditLogTrailer,
+			types.AuditLogPartEndMarker,
 		},
 		AuditLogFormat:     "Native",
 		Logger:             logger,
